@@ -1,1 +1,1078 @@
-fn main() { eprintln!("engine not built yet"); std::process::exit(2); }
+//! C07 — Rational arithmetic is exact and canonical; order and equality follow the value.
+//! Form I: exhaustive enumeration of operand pairs on the REAL `rlib_rational::Rational<T>` for
+//! T = i32, i64, i128, against a reference that works on the RAW inputs in i128 with its own (binary)
+//! gcd.  Spaces:
+//!   * box      — every (a/b, c/d) with a,b,c,d in [-B, B], b,d != 0 (quick B=8, thorough B=16);
+//!   * boundary — every quadruple over a boundary set of magnitudes up to 2^30 (numerators also 0);
+//!   * triples  — every ordered triple of the distinct values of the box (order laws).
+//! Operands are always built with the real `Rational::new(a, b)` from the raw pair.  A case whose exact
+//! intermediates (the cross products / sums the implementation forms on the normalised operands) do not
+//! fit the integer type is outside the property's domain: skipped and counted.
+
+use rayon::prelude::*;
+use rlib_rational::{Rational, SignedInteger};
+use std::cmp::Ordering;
+use std::collections::hash_map::DefaultHasher;
+use std::collections::BTreeSet;
+use std::hash::{Hash, Hasher};
+use vcore::*;
+
+// ---------------------------------------------------------------------------------------------
+// integer types under test
+
+trait Int: SignedInteger + Copy + Hash + Send + Sync + 'static {
+    const NAME: &'static str;
+    const TI: usize;
+    const MAXV: i128;
+    fn fr(x: i128) -> Self;
+    fn to(self) -> i128;
+}
+
+macro_rules! int_impl {
+    ($t:ty, $n:expr, $i:expr) => {
+        impl Int for $t {
+            const NAME: &'static str = $n;
+            const TI: usize = $i;
+            const MAXV: i128 = <$t>::MAX as i128;
+            fn fr(x: i128) -> Self {
+                x as $t // callers guarantee |x| <= MAXV (validated for replay input)
+            }
+            fn to(self) -> i128 {
+                self as i128
+            }
+        }
+    };
+}
+int_impl!(i32, "i32", 0);
+int_impl!(i64, "i64", 1);
+int_impl!(i128, "i128", 2);
+const TYPE_NAMES: [&str; 3] = ["i32", "i64", "i128"];
+
+// ---------------------------------------------------------------------------------------------
+// reference (i128, raw inputs, independent binary gcd)
+
+fn bgcd(mut a: u128, mut b: u128) -> u128 {
+    if a == 0 {
+        return b;
+    }
+    if b == 0 {
+        return a;
+    }
+    let sh = (a | b).trailing_zeros();
+    a >>= a.trailing_zeros();
+    loop {
+        b >>= b.trailing_zeros();
+        if a > b {
+            std::mem::swap(&mut a, &mut b);
+        }
+        b -= a;
+        if b == 0 {
+            return a << sh;
+        }
+    }
+}
+
+fn euclid(mut a: u128, mut b: u128) -> u128 {
+    while b != 0 {
+        let t = a % b;
+        a = b;
+        b = t;
+    }
+    a
+}
+
+fn g(a: i128, b: i128) -> i128 {
+    bgcd(a.unsigned_abs(), b.unsigned_abs()) as i128
+}
+
+/// n/d (d != 0) in lowest terms with a positive denominator.
+fn reduce(n: i128, d: i128) -> (i128, i128) {
+    let k = g(n, d);
+    let (n, d) = (n / k, d / k);
+    if d < 0 {
+        (-n, -d)
+    } else {
+        (n, d)
+    }
+}
+
+fn floor_ref(a: i128, b: i128) -> i128 {
+    let (n, d) = (a * b.signum(), b.abs());
+    n.div_euclid(d)
+}
+
+fn ceil_ref(a: i128, b: i128) -> i128 {
+    let (n, d) = (a * b.signum(), b.abs());
+    -((-n).div_euclid(d))
+}
+
+/// numeric order of a/b versus c/d, computed with positive denominators
+fn cmp_ref(a: i128, b: i128, c: i128, d: i128) -> Ordering {
+    let (a, b) = (a * b.signum(), b.abs());
+    let (c, d) = (c * d.signum(), d.abs());
+    (a * d).cmp(&(c * b))
+}
+
+fn oname(o: Ordering) -> &'static str {
+    match o {
+        Ordering::Less => "Less",
+        Ordering::Equal => "Equal",
+        Ordering::Greater => "Greater",
+    }
+}
+
+// ---------------------------------------------------------------------------------------------
+// check families
+
+#[derive(Clone, Copy, PartialEq, Eq, Debug)]
+enum Op {
+    Add,
+    Sub,
+    Mul,
+    Div,
+}
+#[derive(Clone, Copy, PartialEq, Eq, Debug)]
+enum Form {
+    Val,
+    Ref,
+    AssignRef,
+    Assign,
+}
+#[derive(Clone, Copy, PartialEq, Eq, Debug)]
+enum Fam {
+    New,
+    NewInt,
+    Neg,
+    Floor,
+    Ceil,
+    Display,
+    Arith(Op, Form),
+    Eq,
+    Hash,
+    Cmp,
+    PartialCmp,
+    Antisym,
+    Trans,
+}
+
+const NFAM: usize = 28;
+const OPS: [Op; 4] = [Op::Add, Op::Sub, Op::Mul, Op::Div];
+const FORMS: [Form; 4] = [Form::Val, Form::Ref, Form::AssignRef, Form::Assign];
+
+impl Op {
+    fn name(self) -> &'static str {
+        ["add", "sub", "mul", "div"][self as usize]
+    }
+    fn sym(self) -> &'static str {
+        ["+", "-", "*", "/"][self as usize]
+    }
+}
+impl Form {
+    fn suffix(self) -> &'static str {
+        ["", "_ref", "_assign_ref", "_assign"][self as usize]
+    }
+    fn describe(self, op: Op) -> String {
+        let s = op.sym();
+        match self {
+            Form::Val => format!("x {s} y"),
+            Form::Ref => format!("x {s} &y"),
+            Form::AssignRef => format!("x {s}= &y"),
+            Form::Assign => format!("x {s}= y"),
+        }
+    }
+}
+
+impl Fam {
+    fn idx(self) -> usize {
+        match self {
+            Fam::New => 0,
+            Fam::NewInt => 1,
+            Fam::Neg => 2,
+            Fam::Floor => 3,
+            Fam::Ceil => 4,
+            Fam::Display => 5,
+            Fam::Arith(op, form) => 6 + (op as usize) * 4 + form as usize,
+            Fam::Eq => 22,
+            Fam::Hash => 23,
+            Fam::Cmp => 24,
+            Fam::PartialCmp => 25,
+            Fam::Antisym => 26,
+            Fam::Trans => 27,
+        }
+    }
+    fn all() -> Vec<Fam> {
+        let mut v = vec![Fam::New, Fam::NewInt, Fam::Neg, Fam::Floor, Fam::Ceil, Fam::Display];
+        for op in OPS {
+            for f in FORMS {
+                v.push(Fam::Arith(op, f));
+            }
+        }
+        v.extend([Fam::Eq, Fam::Hash, Fam::Cmp, Fam::PartialCmp, Fam::Antisym, Fam::Trans]);
+        v
+    }
+    fn name(self) -> String {
+        match self {
+            Fam::New => "new".into(),
+            Fam::NewInt => "new_int".into(),
+            Fam::Neg => "neg".into(),
+            Fam::Floor => "floor".into(),
+            Fam::Ceil => "ceil".into(),
+            Fam::Display => "display".into(),
+            Fam::Arith(op, form) => format!("{}{}", op.name(), form.suffix()),
+            Fam::Eq => "eq".into(),
+            Fam::Hash => "hash".into(),
+            Fam::Cmp => "cmp".into(),
+            Fam::PartialCmp => "partial_cmp".into(),
+            Fam::Antisym => "cmp_antisymmetric".into(),
+            Fam::Trans => "cmp_transitive".into(),
+        }
+    }
+    fn from_name(s: &str) -> Option<Fam> {
+        Fam::all().into_iter().find(|f| f.name() == s)
+    }
+    /// number of raw integers in a case of this family
+    fn arity(self) -> usize {
+        match self {
+            Fam::NewInt => 1,
+            Fam::New | Fam::Neg | Fam::Floor | Fam::Ceil | Fam::Display => 2,
+            Fam::Trans => 6,
+            _ => 4,
+        }
+    }
+}
+
+enum Res {
+    Pass,
+    /// an exact intermediate of the implementation does not fit the type: outside the property's domain
+    Skip,
+    /// division by a zero-valued rational: outside the property's domain
+    ZeroDiv,
+    Fail(String),
+}
+
+fn in_range<T: Int>(vs: &[i128]) -> bool {
+    vs.iter().all(|v| v.abs() <= T::MAXV)
+}
+
+fn rat<T: Int>(a: i128, b: i128) -> Rational<T> {
+    Rational::new(T::fr(a), T::fr(b))
+}
+
+fn fields<T: Int>(r: &Rational<T>) -> (i128, i128) {
+    (r.a.to(), r.b.to())
+}
+
+fn hash_of<T: Int>(r: &Rational<T>) -> u64 {
+    let mut h = DefaultHasher::new();
+    r.hash(&mut h);
+    h.finish()
+}
+
+fn apply<T: Int>(op: Op, form: Form, x: Rational<T>, y: Rational<T>) -> Rational<T> {
+    match form {
+        Form::Val => match op {
+            Op::Add => x + y,
+            Op::Sub => x - y,
+            Op::Mul => x * y,
+            Op::Div => x / y,
+        },
+        Form::Ref => match op {
+            Op::Add => x + &y,
+            Op::Sub => x - &y,
+            Op::Mul => x * &y,
+            Op::Div => x / &y,
+        },
+        Form::AssignRef => {
+            let mut z = x;
+            match op {
+                Op::Add => z += &y,
+                Op::Sub => z -= &y,
+                Op::Mul => z *= &y,
+                Op::Div => z /= &y,
+            }
+            z
+        }
+        Form::Assign => {
+            let mut z = x;
+            match op {
+                Op::Add => z += y,
+                Op::Sub => z -= y,
+                Op::Mul => z *= y,
+                Op::Div => z /= y,
+            }
+            z
+        }
+    }
+}
+
+/// The exact values the implementation's `sub` forms on the normalised operands p/q, r/s.
+fn sub_intermediates(p: i128, q: i128, r: i128, s: i128) -> [i128; 4] {
+    [p * s, q * r, p * s - q * r, q * s]
+}
+
+/// Evaluate ONE family on ONE case against the real code.  Everything that touches the code under test
+/// runs inside `catch`; the reference is computed outside it.
+fn check_case<T: Int>(fam: Fam, c: &[i128]) -> Res {
+    let ty = T::NAME;
+    macro_rules! real {
+        ($what:expr, $e:expr) => {
+            match catch(|| $e) {
+                Ok(v) => v,
+                Err(m) => return Res::Fail(format!("{ty}: {}: the real code panicked: {m}", ($what)())),
+            }
+        };
+    }
+    match fam {
+        Fam::New => {
+            let (a, b) = (c[0], c[1]);
+            let exp = reduce(a, b);
+            let got = real!(|| format!("new({a}, {b})"), fields(&rat::<T>(a, b)));
+            if got != exp {
+                return Res::Fail(format!(
+                    "{ty}: new({a}, {b}): expected {}/{} (same value, lowest terms, positive denominator), observed {}/{}",
+                    exp.0, exp.1, got.0, got.1
+                ));
+            }
+            Res::Pass
+        }
+        Fam::NewInt => {
+            let a = c[0];
+            let got = real!(|| format!("new_int({a})"), fields(&Rational::<T>::new_int(T::fr(a))));
+            if got != (a, 1) {
+                return Res::Fail(format!("{ty}: new_int({a}): expected {a}/1, observed {}/{}", got.0, got.1));
+            }
+            Res::Pass
+        }
+        Fam::Neg => {
+            let (a, b) = (c[0], c[1]);
+            let exp = reduce(-a, b);
+            let got = real!(|| format!("-new({a}, {b})"), fields(&(-rat::<T>(a, b))));
+            if got != exp {
+                return Res::Fail(format!("{ty}: -({a}/{b}): expected {}/{}, observed {}/{}", exp.0, exp.1, got.0, got.1));
+            }
+            Res::Pass
+        }
+        Fam::Floor | Fam::Ceil => {
+            let (a, b) = (c[0], c[1]);
+            let (p, q) = reduce(a, b);
+            let (exp, inter, nm) = if fam == Fam::Floor {
+                (floor_ref(a, b), if p < 0 { vec![p - q, p - q + 1] } else { vec![] }, "floor")
+            } else {
+                (ceil_ref(a, b), if p >= 0 { vec![p + q, p + q - 1] } else { vec![] }, "ceil")
+            };
+            if !in_range::<T>(&inter) {
+                return Res::Skip;
+            }
+            let got = real!(|| format!("new({a}, {b}).{nm}()"), {
+                let x = rat::<T>(a, b);
+                fields(&if fam == Fam::Floor { x.floor() } else { x.ceil() })
+            });
+            if got != (exp, 1) {
+                return Res::Fail(format!("{ty}: ({a}/{b}).{nm}(): expected {exp}/1, observed {}/{}", got.0, got.1));
+            }
+            Res::Pass
+        }
+        Fam::Display => {
+            let (a, b) = (c[0], c[1]);
+            let (p, q) = reduce(a, b);
+            let exp = format!("{p}/{q}");
+            let got = real!(|| format!("format!(\"{{}}\", new({a}, {b}))"), format!("{}", rat::<T>(a, b)));
+            if got != exp {
+                return Res::Fail(format!("{ty}: Display of new({a}, {b}): expected \"{exp}\", observed \"{got}\""));
+            }
+            Res::Pass
+        }
+        Fam::Arith(op, form) => {
+            let (a, b, cc, d) = (c[0], c[1], c[2], c[3]);
+            let (p, q) = reduce(a, b);
+            let (r, s) = reduce(cc, d);
+            let (inter, en, ed): ([i128; 4], i128, i128) = match op {
+                Op::Add => ([p * s, q * r, p * s + q * r, q * s], a * d + cc * b, b * d),
+                Op::Sub => (sub_intermediates(p, q, r, s), a * d - cc * b, b * d),
+                Op::Mul => ([p * r, q * s, 0, 0], a * cc, b * d),
+                Op::Div => {
+                    if cc == 0 {
+                        return Res::ZeroDiv;
+                    }
+                    ([p * s, q * r, 0, 0], a * d, b * cc)
+                }
+            };
+            if !in_range::<T>(&inter) {
+                return Res::Skip;
+            }
+            let exp = reduce(en, ed);
+            let what = || format!("x = new({a}, {b}), y = new({cc}, {d}), {}", form.describe(op));
+            let got = real!(what, fields(&apply(op, form, rat::<T>(a, b), rat::<T>(cc, d))));
+            if got != exp {
+                return Res::Fail(format!(
+                    "{ty}: {}: expected {}/{} (exact, lowest terms, positive denominator), observed {}/{}",
+                    what(), exp.0, exp.1, got.0, got.1
+                ));
+            }
+            Res::Pass
+        }
+        Fam::Eq => {
+            let (a, b, cc, d) = (c[0], c[1], c[2], c[3]);
+            let exp = a * d == cc * b;
+            let what = || format!("new({a}, {b}) == new({cc}, {d})");
+            let (eq, ne) = real!(what, {
+                let (x, y) = (rat::<T>(a, b), rat::<T>(cc, d));
+                (x == y, x != y)
+            });
+            if eq != exp || ne == exp {
+                let what = what();
+                return Res::Fail(format!("{ty}: {what}: numerically {exp} (cross products {} vs {}), observed == {eq}, != {ne}", a * d, cc * b));
+            }
+            Res::Pass
+        }
+        Fam::Hash => {
+            let (a, b, cc, d) = (c[0], c[1], c[2], c[3]);
+            if a * d != cc * b {
+                return Res::Pass; // nothing is demanded of the hashes of different values
+            }
+            let what = || format!("hash(new({a}, {b})) vs hash(new({cc}, {d}))");
+            let (h1, h2) = real!(what, (hash_of(&rat::<T>(a, b)), hash_of(&rat::<T>(cc, d))));
+            if h1 != h2 {
+                let what = what();
+                return Res::Fail(format!("{ty}: {what}: the values are numerically equal but hash to {h1:#x} and {h2:#x}"));
+            }
+            Res::Pass
+        }
+        Fam::Cmp | Fam::PartialCmp | Fam::Antisym => {
+            let (a, b, cc, d) = (c[0], c[1], c[2], c[3]);
+            let (p, q) = reduce(a, b);
+            let (r, s) = reduce(cc, d);
+            if !in_range::<T>(&sub_intermediates(p, q, r, s)) {
+                return Res::Skip;
+            }
+            let exp = cmp_ref(a, b, cc, d);
+            match fam {
+                Fam::Cmp => {
+                    let what = || format!("new({a}, {b}).cmp(&new({cc}, {d}))");
+                    let got = real!(what, rat::<T>(a, b).cmp(&rat::<T>(cc, d)));
+                    if got != exp {
+                        let what = what();
+                return Res::Fail(format!("{ty}: {what}: expected {} (sign of a*d - c*b with positive denominators), observed {}", oname(exp), oname(got)));
+                    }
+                }
+                Fam::PartialCmp => {
+                    let what = || format!("new({a}, {b}).partial_cmp(&new({cc}, {d}))");
+                    let got = real!(what, rat::<T>(a, b).partial_cmp(&rat::<T>(cc, d)));
+                    if got != Some(exp) {
+                        let what = what();
+                return Res::Fail(format!("{ty}: {what}: expected Some({}), observed {:?}", oname(exp), got));
+                    }
+                }
+                _ => {
+                    let what = || format!("x = new({a}, {b}), y = new({cc}, {d}), x.cmp(&y) vs y.cmp(&x)");
+                    let (xy, yx) = real!(what, {
+                        let (x, y) = (rat::<T>(a, b), rat::<T>(cc, d));
+                        (x.cmp(&y), y.cmp(&x))
+                    });
+                    if xy != yx.reverse() {
+                        let what = what();
+                return Res::Fail(format!("{ty}: {what}: observed {} and {}, which are not mirror images", oname(xy), oname(yx)));
+                    }
+                }
+            }
+            Res::Pass
+        }
+        Fam::Trans => {
+            let n = [reduce(c[0], c[1]), reduce(c[2], c[3]), reduce(c[4], c[5])];
+            for (i, j) in [(0, 1), (1, 2), (0, 2)] {
+                if !in_range::<T>(&sub_intermediates(n[i].0, n[i].1, n[j].0, n[j].1)) {
+                    return Res::Skip;
+                }
+            }
+            let what = || format!("x = new({}, {}), y = new({}, {}), z = new({}, {})", c[0], c[1], c[2], c[3], c[4], c[5]);
+            let (xy, yz, xz) = real!(what, {
+                let (x, y, z) = (rat::<T>(c[0], c[1]), rat::<T>(c[2], c[3]), rat::<T>(c[4], c[5]));
+                (x.cmp(&y), y.cmp(&z), x.cmp(&z))
+            });
+            // x <= y <= z forces x <= z, strictly if either step is strict; mirrored for >=
+            let forced = |o1: Ordering, o2: Ordering, dir: Ordering| -> Option<Ordering> {
+                let ok = |o: Ordering| o == dir || o == Ordering::Equal;
+                if ok(o1) && ok(o2) {
+                    Some(if o1 == dir || o2 == dir { dir } else { Ordering::Equal })
+                } else {
+                    None
+                }
+            };
+            for dir in [Ordering::Less, Ordering::Greater] {
+                if let Some(e) = forced(xy, yz, dir) {
+                    if xz != e {
+                        let what = what();
+                        return Res::Fail(format!(
+                            "{ty}: {what}: x.cmp(&y) = {}, y.cmp(&z) = {} force x.cmp(&z) = {}, observed {}",
+                            oname(xy),
+                            oname(yz),
+                            oname(e),
+                            oname(xz)
+                        ));
+                    }
+                }
+            }
+            Res::Pass
+        }
+    }
+}
+
+const SINGLE_FAMS: [Fam; 5] = [Fam::New, Fam::Neg, Fam::Floor, Fam::Ceil, Fam::Display];
+
+fn pair_fams() -> Vec<Fam> {
+    let mut v = vec![];
+    for op in OPS {
+        for f in FORMS {
+            v.push(Fam::Arith(op, f));
+        }
+    }
+    v.extend([Fam::Eq, Fam::Hash, Fam::Cmp, Fam::PartialCmp, Fam::Antisym]);
+    v
+}
+
+// ---------------------------------------------------------------------------------------------
+// accumulation
+
+/// simplest-first key of a case: (largest magnitude, sum of magnitudes, number of negatives, the case, type)
+type Key = (i128, i128, usize, Vec<i128>, usize);
+
+fn key_of(c: &[i128], ti: usize) -> Key {
+    (c.iter().map(|v| v.abs()).max().unwrap_or(0), c.iter().map(|v| v.abs()).sum(), c.iter().filter(|v| **v < 0).count(), c.to_vec(), ti)
+}
+
+#[derive(Clone)]
+struct FailRec {
+    key: Key,
+    fam: Fam,
+    space: &'static str,
+    summary: String,
+}
+
+const NV_NAMES: [&str; 16] = [
+    "new_negative_denominator_with_common_factor",
+    "div_by_negative_value",
+    "floor_of_negative_integer",
+    "floor_of_negative_non_integer",
+    "ceil_of_positive_non_integer",
+    "ceil_of_negative_non_integer",
+    "numerically_equal_from_different_raw_pairs",
+    "cmp_less",
+    "cmp_equal",
+    "cmp_greater",
+    "cmp_differs_from_order_of_numerators",
+    "operands_share_a_factor_across_the_fractions",
+    "some_operand_not_in_canonical_form",
+    "add_result_needs_reduction",
+    "zero_numerator_operand",
+    "both_denominators_negative",
+];
+
+#[derive(Clone)]
+struct Acc {
+    singles: u64,
+    pairs: u64,
+    triples: u64,
+    evals: [u64; NFAM],
+    skipped: [u64; NFAM],
+    failed: [u64; NFAM],
+    zero_div: u64,
+    nontrivial: u64,
+    nv: [u64; 16],
+    first: Vec<Option<FailRec>>,
+    results: BTreeSet<(i64, i64)>,
+}
+
+impl Acc {
+    fn new() -> Acc {
+        Acc {
+            singles: 0,
+            pairs: 0,
+            triples: 0,
+            evals: [0; NFAM],
+            skipped: [0; NFAM],
+            failed: [0; NFAM],
+            zero_div: 0,
+            nontrivial: 0,
+            nv: [0; 16],
+            first: vec![None; NFAM],
+            results: BTreeSet::new(),
+        }
+    }
+    fn offer(&mut self, f: FailRec) {
+        let slot = &mut self.first[f.fam.idx()];
+        if slot.as_ref().map_or(true, |o| f.key < o.key) {
+            *slot = Some(f);
+        }
+    }
+    fn merge(mut self, o: Acc) -> Acc {
+        self.singles += o.singles;
+        self.pairs += o.pairs;
+        self.triples += o.triples;
+        for i in 0..NFAM {
+            self.evals[i] += o.evals[i];
+            self.skipped[i] += o.skipped[i];
+            self.failed[i] += o.failed[i];
+        }
+        self.zero_div += o.zero_div;
+        self.nontrivial += o.nontrivial;
+        for i in 0..self.nv.len() {
+            self.nv[i] += o.nv[i];
+        }
+        for f in o.first.into_iter().flatten() {
+            self.offer(f);
+        }
+        if self.results.len() < o.results.len() {
+            let mut r = o.results;
+            r.extend(self.results.iter().copied());
+            self.results = r;
+        } else {
+            self.results.extend(o.results);
+        }
+        self
+    }
+    fn record<T: Int>(&mut self, fam: Fam, space: &'static str, case: &[i128], r: Res) -> bool {
+        let i = fam.idx();
+        match r {
+            Res::Pass => {
+                self.evals[i] += 1;
+                true
+            }
+            Res::Skip => {
+                self.skipped[i] += 1;
+                false
+            }
+            Res::ZeroDiv => {
+                self.zero_div += 1;
+                false
+            }
+            Res::Fail(summary) => {
+                self.evals[i] += 1;
+                self.failed[i] += 1;
+                self.offer(FailRec { key: key_of(case, T::TI), fam, space, summary });
+                true
+            }
+        }
+    }
+    fn total_evals(&self) -> u64 {
+        self.evals.iter().sum()
+    }
+    fn total_skipped(&self) -> u64 {
+        self.skipped.iter().sum()
+    }
+    fn to_json(&self) -> Value {
+        let mut fams = serde_json::Map::new();
+        for f in Fam::all() {
+            let i = f.idx();
+            if self.evals[i] + self.skipped[i] > 0 {
+                fams.insert(f.name(), json!({"evaluations": self.evals[i], "skipped_out_of_domain": self.skipped[i], "mismatches": self.failed[i]}));
+            }
+        }
+        let mut nv = serde_json::Map::new();
+        for (i, n) in NV_NAMES.iter().enumerate() {
+            nv.insert(n.to_string(), json!(self.nv[i]));
+        }
+        json!({
+            "operands": self.singles,
+            "operand_pairs": self.pairs,
+            "operand_triples": self.triples,
+            "evaluations": self.total_evals(),
+            "skipped_out_of_domain": self.total_skipped(),
+            "skipped_zero_divisor": self.zero_div,
+            "distinct_nontrivial": self.nontrivial,
+            "distinct_result_values": self.results.len(),
+            "families": Value::Object(fams),
+            "situations_reached": Value::Object(nv),
+        })
+    }
+}
+
+fn single<T: Int>(acc: &mut Acc, a: i128, b: i128, space: &'static str) {
+    acc.singles += 1;
+    let case = [a, b];
+    for fam in SINGLE_FAMS {
+        acc.record::<T>(fam, space, &case, check_case::<T>(fam, &case));
+    }
+    if b == 1 {
+        acc.record::<T>(Fam::NewInt, space, &[a], check_case::<T>(Fam::NewInt, &[a]));
+    }
+    let (p, q) = reduce(a, b);
+    acc.nv[0] += (b < 0 && g(a, b) > 1) as u64;
+    acc.nv[2] += (p < 0 && q == 1) as u64;
+    acc.nv[3] += (p < 0 && q > 1) as u64;
+    acc.nv[4] += (p > 0 && q > 1) as u64;
+    acc.nv[5] += (p < 0 && q > 1) as u64;
+}
+
+fn pair<T: Int>(acc: &mut Acc, fams: &[Fam], a: i128, b: i128, c: i128, d: i128, space: &'static str, collect: bool) {
+    acc.pairs += 1;
+    let case = [a, b, c, d];
+    let numeq = a * d == c * b;
+    let mut cmp_evaluated = false;
+    let mut div_evaluated = false;
+    for &fam in fams {
+        if fam == Fam::Hash && !numeq {
+            continue; // nothing demanded
+        }
+        let done = acc.record::<T>(fam, space, &case, check_case::<T>(fam, &case));
+        if fam == Fam::Cmp {
+            cmp_evaluated = done;
+        }
+        if fam == Fam::Arith(Op::Div, Form::Val) {
+            div_evaluated = done;
+        }
+    }
+    // situation counters, all derived from the reference
+    let (p, q) = reduce(a, b);
+    let (r, s) = reduce(c, d);
+    let canonical = (a, b) == (p, q) && (c, d) == (r, s);
+    acc.nv[1] += (div_evaluated && r < 0) as u64;
+    acc.nv[6] += (numeq && (a, b) != (c, d)) as u64;
+    if cmp_evaluated {
+        let o = cmp_ref(a, b, c, d);
+        match o {
+            Ordering::Less => acc.nv[7] += 1,
+            Ordering::Equal => acc.nv[8] += 1,
+            Ordering::Greater => acc.nv[9] += 1,
+        }
+        acc.nv[10] += (o != p.cmp(&r)) as u64;
+    }
+    acc.nv[11] += (g(p, s) > 1 || g(q, r) > 1) as u64;
+    acc.nv[12] += (!canonical) as u64;
+    acc.nv[14] += (a == 0 || c == 0) as u64;
+    acc.nv[15] += (b < 0 && d < 0) as u64;
+    // results of the four operators on the normalised operands, before the operator's own normalisation
+    let raw: [(Option<(i128, i128)>, &[i128]); 4] = [
+        (Some((p * s + q * r, q * s)), &[p * s, q * r, p * s + q * r, q * s]),
+        (Some((p * s - q * r, q * s)), &[p * s, q * r, p * s - q * r, q * s]),
+        (Some((p * r, q * s)), &[p * r, q * s]),
+        (if r != 0 { Some((p * s, q * r)) } else { None }, &[p * s, q * r]),
+    ];
+    let mut work = false;
+    for (k, (res, inter)) in raw.iter().enumerate() {
+        if let Some((n, dd)) = res {
+            if in_range::<T>(inter) {
+                let needs = g(*n, *dd) > 1 || *dd < 0;
+                work |= needs;
+                if k == 0 {
+                    acc.nv[13] += needs as u64;
+                }
+                if collect {
+                    let (x, y) = reduce(*n, *dd);
+                    acc.results.insert((x as i64, y as i64));
+                }
+            }
+        }
+    }
+    // counted once per VALUE pair (at its canonical raw representative), so the count is of distinct cases
+    if canonical && work {
+        acc.nontrivial += 1;
+    }
+}
+
+fn run_pairs<T: Int>(ops: &[(i128, i128)], space: &'static str, collect: bool) -> Acc {
+    let fams = pair_fams();
+    (0..ops.len())
+        .into_par_iter()
+        .fold(Acc::new, |mut acc, i| {
+            let (a, b) = ops[i];
+            single::<T>(&mut acc, a, b, space);
+            for &(c, d) in ops {
+                pair::<T>(&mut acc, &fams, a, b, c, d, space, collect);
+            }
+            acc
+        })
+        .reduce(Acc::new, Acc::merge)
+}
+
+fn run_triples<T: Int>(vals: &[(i128, i128)]) -> Acc {
+    (0..vals.len())
+        .into_par_iter()
+        .fold(Acc::new, |mut acc, i| {
+            let x = vals[i];
+            for &y in vals {
+                for &z in vals {
+                    acc.triples += 1;
+                    let case = [x.0, x.1, y.0, y.1, z.0, z.1];
+                    acc.record::<T>(Fam::Trans, "triples", &case, check_case::<T>(Fam::Trans, &case));
+                }
+            }
+            acc
+        })
+        .reduce(Acc::new, Acc::merge)
+}
+
+// ---------------------------------------------------------------------------------------------
+// spaces
+
+/// 1, -1, 2, -2, … (simplest first); with `zero` a leading 0
+fn signed(mags: &[i128], zero: bool) -> Vec<i128> {
+    let mut v = vec![];
+    if zero {
+        v.push(0);
+    }
+    for &m in mags {
+        v.push(m);
+        v.push(-m);
+    }
+    v
+}
+
+fn operands(mags: &[i128]) -> Vec<(i128, i128)> {
+    let nums = signed(mags, true);
+    let dens = signed(mags, false);
+    let mut v = vec![];
+    for &a in &nums {
+        for &b in &dens {
+            v.push((a, b));
+        }
+    }
+    v.sort_by_key(|&(a, b)| key_of(&[a, b], 0));
+    v
+}
+
+const BOUNDARY: [i128; 12] = [1, 2, 3, (1 << 15) - 1, 1 << 15, 46337, 46340, 46341, (1 << 16) - 1, 1 << 16, (1 << 30) - 1, 1 << 30];
+
+fn case_text(c: &[i128]) -> String {
+    if c.len() == 1 {
+        return c[0].to_string();
+    }
+    c.chunks(2).map(|p| format!("{}/{}", p[0], p[1])).collect::<Vec<_>>().join(",")
+}
+
+fn dispatch(ty: &str, fam: Fam, case: &[i128]) -> Option<Res> {
+    Some(match ty {
+        "i32" => check_case::<i32>(fam, case),
+        "i64" => check_case::<i64>(fam, case),
+        "i128" => check_case::<i128>(fam, case),
+        _ => return None,
+    })
+}
+
+fn confirm(v: &Value) -> Result<(), String> {
+    let bad = |m: &str| -> ! {
+        eprintln!("malformed replay for engine rational: {m}");
+        std::process::exit(2)
+    };
+    let fam = v["family"].as_str().and_then(Fam::from_name).unwrap_or_else(|| bad("unknown family"));
+    let ty = v["type"].as_str().unwrap_or_else(|| bad("missing type"));
+    let case: Vec<i128> = match v["case"].as_array() {
+        Some(a) => a.iter().map(|x| x.as_i64().unwrap_or_else(|| bad("case entries must be integers")) as i128).collect(),
+        None => bad("missing case"),
+    };
+    if case.len() != fam.arity() {
+        bad("wrong number of integers for this family");
+    }
+    if case.iter().any(|x| x.abs() > (1 << 30)) || case.iter().skip(1).step_by(2).any(|&d| d == 0) {
+        bad("case outside the engine's input space (|value| <= 2^30, denominators non-zero)");
+    }
+    match dispatch(ty, fam, &case) {
+        None => bad("unknown type"),
+        Some(Res::Fail(s)) => Err(s),
+        Some(_) => Ok(()),
+    }
+}
+
+/// One fully written-out case for the evidence file: what the real code returned.
+fn sample<T: Int>(space: &str, a: i128, b: i128, c: i128, d: i128) -> Value {
+    let r = catch(|| {
+        let (x, y) = (rat::<T>(a, b), rat::<T>(c, d));
+        let f = |r: Rational<T>| format!("{}", r);
+        let (p, q) = reduce(a, b);
+        let (r, s) = reduce(c, d);
+        let fits = |v: &[i128]| in_range::<T>(v);
+        json!({
+            "x": f(x), "y": f(y),
+            "x+y": if fits(&[p * s, q * r, p * s + q * r, q * s]) { json!(f(x + y)) } else { json!("skipped: intermediate exceeds the type") },
+            "x-=&y": if fits(&sub_intermediates(p, q, r, s)) { let mut z = x; z -= &y; json!(f(z)) } else { json!("skipped: intermediate exceeds the type") },
+            "x*&y": if fits(&[p * r, q * s]) { json!(f(x * &y)) } else { json!("skipped: intermediate exceeds the type") },
+            "x/y": if r == 0 { json!("skipped: zero divisor") } else if fits(&[p * s, q * r]) { json!(f(x / y)) } else { json!("skipped: intermediate exceeds the type") },
+            "-x": f(-x),
+            "x.cmp(&y)": if fits(&sub_intermediates(p, q, r, s)) { json!(oname(x.cmp(&y))) } else { json!("skipped: intermediate exceeds the type") },
+            "x==y": x == y,
+            "x.floor()": f(x.floor()), "x.ceil()": f(x.ceil()),
+            "hash(x)": format!("{:#018x}", hash_of(&x)),
+        })
+    });
+    json!({"space": space, "type": T::NAME, "raw": case_text(&[a, b, c, d]), "observed": r.unwrap_or_else(|m| json!(format!("panicked: {m}")))})
+}
+
+fn run_type<T: Int>(box_ops: &[(i128, i128)], bnd_ops: &[(i128, i128)], vals: &[(i128, i128)]) -> [Acc; 3] {
+    [run_pairs::<T>(box_ops, "box", true), run_pairs::<T>(bnd_ops, "boundary", false), run_triples::<T>(vals)]
+}
+
+fn main() {
+    let args = Args::parse();
+    quiet_panics();
+    if args.replay.is_some() {
+        Run::replay_main(&args, &confirm);
+    }
+    let mut run = Run::new(&args, "rational", "exploration");
+    let mut bound: i128 = args.tier.pick(8, 16);
+    if let Some(i) = args.extra.iter().position(|s| s == "--box") {
+        match args.extra.get(i + 1).and_then(|s| s.parse::<i128>().ok()) {
+            Some(n) if (1..=1024).contains(&n) => bound = n,
+            _ => run.machinery_failure("--box needs an integer in 1..=1024"),
+        }
+    }
+
+    // self-tests of the reference
+    for a in 0..=80u128 {
+        for b in 0..=80u128 {
+            if bgcd(a, b) != euclid(a, b) {
+                run.machinery_failure(&format!("reference gcd self-test failed at ({a},{b})"));
+            }
+        }
+    }
+    for &m in &BOUNDARY {
+        for &n in &BOUNDARY {
+            for (x, y) in [(m as u128, n as u128), ((m * n) as u128, (m * m) as u128), ((m * n + n) as u128, (n * n) as u128)] {
+                if bgcd(x, y) != euclid(x, y) {
+                    run.machinery_failure(&format!("reference gcd self-test failed at ({x},{y})"));
+                }
+            }
+        }
+    }
+
+    let mags: Vec<i128> = (1..=bound).collect();
+    let box_ops = operands(&mags);
+    let bnd_ops = operands(&BOUNDARY);
+    for &(a, b) in box_ops.iter().chain(bnd_ops.iter()) {
+        let (n, d) = (a * b.signum(), b.abs());
+        let (f, c) = (floor_ref(a, b), ceil_ref(a, b));
+        let ok = f * d <= n && n < (f + 1) * d && (c - 1) * d < n && n <= c * d;
+        let (p, q) = reduce(a, b);
+        if !ok || q <= 0 || g(p, q) != 1 || p * b != a * q {
+            run.machinery_failure(&format!("reference floor/ceil/reduce self-test failed at {a}/{b}"));
+        }
+    }
+    // distinct values of the box, one canonical raw representative each, simplest first
+    let vals: Vec<(i128, i128)> = box_ops.iter().copied().filter(|&(a, b)| reduce(a, b) == (a, b)).collect();
+    {
+        let set: BTreeSet<(i128, i128)> = box_ops.iter().map(|&(a, b)| reduce(a, b)).collect();
+        if set.len() != vals.len() {
+            run.machinery_failure("distinct-value list of the box is inconsistent");
+        }
+    }
+
+    let accs: [[Acc; 3]; 3] = [run_type::<i32>(&box_ops, &bnd_ops, &vals), run_type::<i64>(&box_ops, &bnd_ops, &vals), run_type::<i128>(&box_ops, &bnd_ops, &vals)];
+
+    // hash spread over the distinct values of the box (coverage only; nothing is demanded of it)
+    let hashes: BTreeSet<u64> = vals.iter().filter_map(|&(a, b)| catch(|| hash_of(&rat::<i64>(a, b))).ok()).collect();
+
+    // ---- evidence
+    let spaces = ["box", "boundary", "triples"];
+    let mut total = Acc::new();
+    let mut by = serde_json::Map::new();
+    for (ti, per_type) in accs.iter().enumerate() {
+        let mut o = serde_json::Map::new();
+        for (si, acc) in per_type.iter().enumerate() {
+            o.insert(spaces[si].to_string(), acc.to_json());
+            let mut a = acc.clone();
+            a.results.clear();
+            total = total.merge(a);
+        }
+        by.insert(TYPE_NAMES[ti].to_string(), Value::Object(o));
+    }
+    let pair_evals: u64 = total.total_evals() - total.evals[Fam::Trans.idx()];
+    run.cov("evaluations", pair_evals);
+    run.cov("order_law_triples_checked", total.evals[Fam::Trans.idx()]);
+    run.cov("distinct_nontrivial", total.nontrivial);
+    run.cov("skipped_out_of_domain", total.total_skipped());
+    run.cov("skipped_zero_divisor", total.zero_div);
+    run.cov("exhaustive", true);
+    run.cov("box_bound", bound as i64);
+    run.cov("box_operands_per_type", box_ops.len() as u64);
+    run.cov("box_distinct_values", vals.len() as u64);
+    run.cov("box_distinct_hashes_of_distinct_values", hashes.len() as u64);
+    run.cov("boundary_magnitudes", BOUNDARY.iter().map(|&m| m as i64).collect::<Vec<i64>>());
+    run.cov("boundary_operands_per_type", bnd_ops.len() as u64);
+    let mut famtot = serde_json::Map::new();
+    for f in Fam::all() {
+        famtot.insert(f.name(), json!(total.evals[f.idx()]));
+    }
+    run.cov("evaluations_by_family", Value::Object(famtot));
+    run.cov("by_type_and_space", Value::Object(by));
+    run.cov(
+        "rule",
+        format!(
+            "for each of i32, i64, i128: (box) every ordered pair of operands new(a,b), new(c,d) with a,b,c,d in [-{bound},{bound}], b,d != 0; (boundary) every ordered pair of operands \
+             with numerators in {{0}} u +-S and denominators in +-S, S = boundary_magnitudes; (triples) every ordered triple of the {n} distinct values of the box, each built by new from its \
+             lowest-terms positive-denominator raw pair (cmp reads only the two fields, so other raw spellings of the same value are the same object). Per operand: new, neg, floor, ceil, Display \
+             (new_int when b = 1); per pair: + - * / each as `x op y`, `x op &y`, `x op= &y`, `x op= y`, ==/!=, Hash (only when numerically equal), cmp, partial_cmp, antisymmetry. \
+             `evaluations` counts executions of the real code compared with the i128 reference (triples counted separately). A case is skipped (counted) when an exact intermediate the \
+             implementation forms on the normalised operands (a*d, b*c, a*d+-b*c, b*d, a*c, a-b+1, a+b-1) exceeds the type's MAX in magnitude, or the divisor is 0. \
+             distinct_nontrivial = number of distinct (type, value pair) cases, counted at the canonical raw pair, in which at least one in-range operator result needs real normalisation \
+             (reduction by a gcd > 1 or a sign moved off the denominator)",
+            n = vals.len()
+        ),
+    );
+    run.assume("std::collections::hash_map::DefaultHasher::new() uses fixed keys, so hashes are reproducible");
+    run.assume("the release profile has overflow checks off: an overflowing case would wrap silently, which is why out-of-range intermediates are computed exactly in i128 and skipped");
+
+    // samples (VERIF_SEED only rotates which ones are printed)
+    let rot = args.seed as usize;
+    for k in 0..3usize {
+        let i = (rot.wrapping_mul(7919) + k * 104_729 + 311) % box_ops.len();
+        let j = (rot.wrapping_mul(31) + k * 1_299_709 + 97) % box_ops.len();
+        let ((a, b), (c, d)) = (box_ops[i], box_ops[j]);
+        run.sample(match k {
+            0 => sample::<i32>("box", a, b, c, d),
+            1 => sample::<i64>("box", a, b, c, d),
+            _ => sample::<i128>("box", a, b, c, d),
+        });
+    }
+    run.sample(sample::<i64>("box", -6, -4, 5, -10));
+    run.sample(sample::<i64>("boundary", -(1 << 30), (1 << 30) - 1, 46337, -(1 << 15)));
+    run.sample(sample::<i32>("boundary", 46340, -3, -46340, 2));
+    run.sample(sample::<i32>("boundary", 46341, 1, 1, 46341));
+
+    // ---- violations: per family the simplest failing case over all types and spaces
+    for f in total.first.iter().flatten() {
+        let (case, ti) = (&f.key.3, f.key.4);
+        let sig = format!("{}:{}:{}", f.fam.name(), TYPE_NAMES[ti], case_text(case));
+        let replay = json!({"family": f.fam.name(), "type": TYPE_NAMES[ti], "space": f.space, "case": case.iter().map(|&x| x as i64).collect::<Vec<i64>>()});
+        let n = total.failed[f.fam.idx()];
+        run.violation(Violation::new(sig, format!("{} [{} mismatching evaluations in family {}; this is the simplest]", f.summary, n, f.fam.name()), replay));
+    }
+
+    // ---- non-vacuity self-checks (all on reference-derived counters, so they hold with or without violations)
+    for (ti, per_type) in accs.iter().enumerate() {
+        let ty = TYPE_NAMES[ti];
+        let (bx, bd, tr) = (&per_type[0], &per_type[1], &per_type[2]);
+        if bound <= 1000 && (bx.total_skipped() != 0 || tr.total_skipped() != 0) {
+            run.machinery_failure(&format!("{ty}: cases of the small box were skipped as out of domain"));
+        }
+        if bound >= 4 {
+            for (i, n) in NV_NAMES.iter().enumerate() {
+                if bx.nv[i] == 0 {
+                    run.machinery_failure(&format!("{ty}: the box never reached the situation `{n}`"));
+                }
+            }
+        }
+        for f in Fam::all() {
+            let want = f != Fam::Trans;
+            if want && bx.evals[f.idx()] == 0 {
+                run.machinery_failure(&format!("{ty}: family {} was never evaluated on the box", f.name()));
+            }
+        }
+        if tr.evals[Fam::Trans.idx()] != (vals.len() as u64).pow(3) {
+            run.machinery_failure(&format!("{ty}: not every triple of distinct values was evaluated"));
+        }
+        if bx.nontrivial < 2 || bx.results.len() < 10 {
+            run.machinery_failure(&format!("{ty}: implausibly few non-trivial cases on the box"));
+        }
+        match ty {
+            "i32" => {
+                if bd.total_skipped() == 0 || bd.evals[Fam::Arith(Op::Mul, Form::Val).idx()] == 0 {
+                    run.machinery_failure("i32: the boundary set must contain both overflowing (skipped) and in-range products");
+                }
+            }
+            _ => {
+                if bd.total_skipped() != 0 {
+                    run.machinery_failure(&format!("{ty}: boundary cases with |values| <= 2^30 were skipped as overflowing"));
+                }
+            }
+        }
+    }
+    run.finish(&confirm)
+}
